@@ -41,6 +41,8 @@ func (sa *Safe) step(fr *frame, st *State, ins ssa.Instruction) {
 		fr.regs[x] = AVal{Kind: avPtr, Obj: o, Path: "", NonNil: true, Type: x.Type()}
 		if isReaderType(x.Type()) {
 			sa.setBufLen(st, fr.regs[x], linConst(0))
+			st.logs[o] = []logEntry{}
+			sa.noteBuffer(fr, o)
 		}
 		if x.Heap {
 			sa.addAlloc(AllocSite{Fn: SSAFuncName(fr.fn), Pos: x.Pos(), What: "new " + elem.String(), Size: "fixed", Max: sa.w.sizeOf(elem)})
@@ -274,6 +276,24 @@ func (sa *Safe) fit(fr *frame, st *State, l *Lin, t types.Type, desc string) AVa
 		if iv.Lo >= rg.Lo && iv.Hi <= rg.Hi {
 			return AVal{Kind: avInt, Lin: l, Type: t}
 		}
+	}
+	if l != nil {
+		// wrap-around possible: the same expression wraps to the same value, so it gets one atom
+		if sa.wrapAtoms == nil {
+			sa.wrapAtoms = map[string]atomID{}
+		}
+		k := t.String() + "|" + l.key()
+		a, ok := sa.wrapAtoms[k]
+		if !ok {
+			a = sa.u.newAtom("wrap("+desc+")", rg)
+			sa.u.atoms[a].Where = fr.curIns
+			sa.wrapAtoms[k] = a
+			if sa.wrapSrc == nil {
+				sa.wrapSrc = map[atomID]*Lin{}
+			}
+			sa.wrapSrc[a] = l
+		}
+		return AVal{Kind: avInt, Lin: linAtom(a), Type: t}
 	}
 	return AVal{Kind: avInt, Lin: linAtom(sa.mAtom(fr, desc, rg)), Type: t}
 }
